@@ -39,8 +39,8 @@ META = {
                 "run), plus TLC-generated and random histories; all recorded traces are validated by TLC.",
         "note": "Assumes a down period lasts >= 40 cycles, PHY stalls <= 3 cycles per word (so in-flight commands "
                 "drain while the link is down), no header/LRTY word within 8 cycles before the link drops or while "
-                "it is down, usb_reset only while enable is low or in the cycle it falls. Commands that complete "
-                "while the link is down are not constrained.",
+                "it is down; usb_reset may strobe while enable is low, as it falls, or while it is still high (restart "
+                "point). Commands that complete while the link is down are not constrained.",
         "technique": "TLA+ obligation model with crash points, TLC exhaustive + exhaustive cycle-offset replay + trace validation",
         "design_ref": "DESIGN.md §5 C38, Appendix A",
     },
@@ -316,6 +316,31 @@ class RxBench:
                     await cycle()
                 ctx.set(dut.usb_reset, 0)
 
+        async def do_reset_up(rst_len, down_after):
+            """usb_reset strobes for rst_len cycles while enable is (still) high; optionally enable falls
+            `down_after` cycles after the first cycle of the strobe."""
+            if not st["enabled"]:
+                return
+            r0 = st["cycle"]
+            st["auto"] = 0.0
+            ctx.set(dut.usb_reset, 1)
+            n = 0
+            while n < max(rst_len, 2) or (down_after is not None and n <= down_after):
+                if n == rst_len:
+                    ctx.set(dut.usb_reset, 0)
+                if down_after is not None and n == down_after:
+                    link_down(False)
+                await cycle()
+                n += 1
+                if n == 2:
+                    # restart point, placed after the outputs of the cycle following the strobe's first cycle:
+                    # a command the dispatcher committed to before the strobe has been presented by then
+                    ev.append({"e": "reset_up", "t": r0})
+                    st["idle"] = 0
+                    st["exp"] = 0
+                    st.update(ignore=False, lbad_owed=False, credits=0, inflight_good=0)
+            ctx.set(dut.usb_reset, 0)
+
         async def run_ops(ops):
             for op in ops:
                 k = op[0]
@@ -333,6 +358,12 @@ class RxBench:
                 elif k == "down":
                     await do_down(op[1], op[2])
                     await cycle()
+                elif k == "reset_up":
+                    while st["cycle"] - st["last_word"] < 9 or words:     # Env: no partner word shortly before
+                        await cycle()
+                    await do_reset_up(op[1], op[2] if len(op) > 2 else None)
+                    for _ in range(12):       # Env: no request strobes / partner traffic right after a reset
+                        await cycle()
                 elif k == "reset":
                     if st["enabled"]:
                         continue
@@ -410,8 +441,11 @@ class RxBench:
             st["crashed"] = True
             words.clear()
             st["want"] = 0
-            _, reset, rst_len, tail = crash
-            await do_down(reset, rst_len, margin=False)
+            _, reset, rst_len, tail = crash[:4]
+            if reset == "up":
+                await do_reset_up(rst_len, crash[4] if len(crash) > 4 else None)
+            else:
+                await do_down(reset, rst_len, margin=False)
             await run_ops(tail)
         self.cycles += st["cycle"]
         info["cycles"] = st["cycle"]
@@ -512,6 +546,10 @@ def rx_script_from_behaviour(beh, rng, quiet_before_down):
             s.append(("wait", 2))
         elif k == "up":
             s.append(("up",))
+        elif k == "reset_up":
+            if quiet_before_down:
+                s.append(("quiet",))
+            s.append(("reset_up", rng.choice([1, 1, 2, 4])))
         elif k == "quiet":
             s.append(("quiet",))
         elif k in ("txs", "txe", "txe_stale"):
@@ -641,7 +679,7 @@ def _rx_model_check(rep):
         cfg = tlc.render_cfg(_cfg("MCSsRx.cfg.tmpl"), {"NBuf": nbuf, "MaxAcc": maxacc, "MaxEpochs": maxep,
                                                        "Deltas": deltas, "WithReqs": reqs})
         res = tlc.model_check(SPEC_DIR, "MCSsRx", cfg, workers=8, timeout=1500,
-                              allow_uncovered=("MRetryReq", "MKaReq") if reqs == "FALSE" else ())
+                              allow_uncovered=("MRetryReq", "MKaReq", "MResetUp") if reqs == "FALSE" else ())
         rep.add_mc("MCSsRx NBuf=%d MaxAcc=%d MaxEpochs=%d Deltas=%s WithReqs=%s" % (nbuf, maxacc, maxep, deltas, reqs),
                    res, {"NBuf": nbuf, "MaxAcc": maxacc, "MaxEpochs": maxep, "Deltas": deltas, "WithReqs": reqs})
 
@@ -745,8 +783,13 @@ def check_C38(rep):
                 "SsRx.tla; non-trivial = a crash point (base scenario, cycle relative to the link command in "
                 "flight, reset kind) or a transmitted command / header event; distinct by that tuple")
     _rx_assumptions(rep)
-    rep.assume("a down period lasts at least %d cycles; no partner word within 8 cycles before enable falls or while "
-               "it is low; usb_reset is asserted only while enable is low or from the cycle it falls" % MIN_DOWN)
+    rep.assume("a down period lasts at least %d cycles; no partner word within 8 cycles before enable falls / usb_reset "
+               "strobes or while enable is low" % MIN_DOWN)
+    rep.assume("usb_reset may strobe (1..6 cycles) while enable is low, from the cycle it falls, or while enable is still "
+               "high (alone or followed by enable falling 1..3 cycles later); with enable high it is a restart point: a "
+               "link command presented at most one cycle after the strobe's first cycle (already committed by the "
+               "dispatcher) may finish, every later command must belong to the fresh advertisement LGOOD(7), LCRD A..D; "
+               "no retry / keep-alive request and no partner word within 12 cycles after such a strobe")
     rep.assume("commands that complete while enable is low are not constrained; after enable rose every completed "
                "command must be a fresh one")
     rep.assume("clean stimuli drop the link / reset only while the DUT is not busy with a link command and no LGOOD "
@@ -790,6 +833,25 @@ def check_C38(rep):
                     cmd = next((P.parse_link_command_word(w)["cmd"] for s, e, w in info0["tx"]
                                 if e is not None and s - 3 <= c <= e + 2), None)
                     rep.nontriv(("crash", name, cmd, off, reset, rl))
+    # (1b) usb_reset strobing while enable is still high (first cycle of a warm reset seen in U0), alone or
+    #      followed by enable falling k cycles later, at EVERY cycle of the base scenarios -- this includes the
+    #      single dispatch cycles with an LCRD / LRTY / keep-alive / LBAD pending
+    modes = [(1, None), (1, 1), (3, None), (1, 3), (2, 2), (6, None)]
+    for name, script, stall_p in rx_base_scenarios():
+        if quick and name not in ("A", "B-stall"):
+            continue
+        import random
+        seed = rep.seed * 1000 + 7
+        tr0, info0 = bench.run(script, random.Random(seed), stall_p=stall_p)
+        for c in rx_crash_points(info0, every=1):
+            for mi, (rl, da) in enumerate(modes):
+                if quick and mi != c % 4:
+                    continue
+                tail = ([("wait", MIN_DOWN), ("up",)] if da is not None else []) + RX_TAIL[1:]
+                tr, info = bench.run(script, random.Random(seed), crash=(c, "up", rl, tail, da), stall_p=stall_p)
+                clean.append((tr, {"origin": "reset-while-up-sweep", "scenario": name, "cycle": c, "rst_len": rl,
+                                   "down_after": da}))
+                rep.nontriv(("reset-up", name, c, rl, da))
     # (2) TLC-simulated behaviours with down/reset/up: once with the DUT left to go idle before each link-down
     #     (clean) and once exactly as generated (link-down wherever the behaviour has it)
     behs = tlc.simulate(SPEC_DIR, "MCSsRx", _cfg("MCSsRx_sim.cfg.tmpl"), num=40 if quick else 300, depth=70,
